@@ -74,7 +74,7 @@ impl Prop for C18 {
         450
     }
     fn cases(&self, t: Tier) -> usize {
-        t.pick(80_000, 2_500_000)
+        t.pick(400_000, 2_500_000)
     }
     fn generate(&self, t: &mut Tape) -> Case {
         let spelling = super::c02::take_spelling(t, 30);
